@@ -254,4 +254,82 @@ macro_rules! c04_diff {
     };
 }
 
+/// Native confirmation for a refuted sequence lemma (L2) -- public API only, no kani: brute-force orbit
+/// minimum of `count` pseudo-random n-variable functions against the library's canonization.
+/// kind: 0 = P, 1 = N, 2 = NPN.  Panics on the first function whose representative is not the minimum.
+pub fn confirm_canon(n: usize, kind: u8, count: usize) {
+    fn apply_multi(b: &[u64], n: usize, perm: &[u8], mask: u32) -> Vec<u64> {
+        let mut g = vec![0u64; b.len()];
+        for y in 0..(1usize << n) {
+            let mut x = 0usize;
+            for i in 0..n {
+                let bt = ((y >> i) & 1) ^ ((mask as usize >> i) & 1);
+                x |= bt << (perm[i] as usize);
+            }
+            let v = ((b[x >> 6] >> (x & 63)) & 1) ^ ((mask as u64 >> n) & 1);
+            g[y >> 6] |= v << (y & 63);
+        }
+        g
+    }
+    fn perms(n: usize) -> Vec<Vec<u8>> {
+        fn rec(cur: &mut Vec<u8>, used: &mut Vec<bool>, n: usize, out: &mut Vec<Vec<u8>>) {
+            if cur.len() == n {
+                out.push(cur.clone());
+                return;
+            }
+            for i in 0..n {
+                if !used[i] {
+                    used[i] = true;
+                    cur.push(i as u8);
+                    rec(cur, used, n, out);
+                    cur.pop();
+                    used[i] = false;
+                }
+            }
+        }
+        let mut out = vec![];
+        rec(&mut vec![], &mut vec![false; n], n, &mut out);
+        out
+    }
+    let t = tsize(n);
+    let all = perms(n);
+    let id: Vec<u8> = (0..n as u8).collect();
+    let mut st: u64 = 0x2545_F491_4F6C_DD1D;
+    for _ in 0..count {
+        let mut b = vec![0u64; t];
+        for w in b.iter_mut() {
+            st ^= st << 13;
+            st ^= st >> 7;
+            st ^= st << 17;
+            *w = st & low_mask(n);
+        }
+        let f = crate::Lut::from_blocks(n, &b);
+        let mut best = f.clone();
+        let ps: &[Vec<u8>] = if kind == 1 { std::slice::from_ref(&id) } else { &all };
+        let mmax: u32 = if kind == 0 { 1 } else { 1u32 << (n + 1) };
+        for p in ps {
+            for m in 0..mmax {
+                let g = crate::Lut::from_blocks(n, &apply_multi(&b, n, p, m));
+                if g < best {
+                    best = g;
+                }
+            }
+        }
+        let c = match kind {
+            0 => f.p_canonization().0,
+            1 => f.n_canonization().0,
+            _ => f.npn_canonization().0,
+        };
+        assert!(c == best, "canonization of {} is {} but the orbit minimum is {}", f, c, best);
+    }
+}
+
+macro_rules! c04_confirm {
+    ($name:ident, $n:literal, $kind:literal, $count:literal, $u:literal) => {
+        pub fn $name() {
+            confirm_canon($n, $kind, $count);
+        }
+    };
+}
+
 // ---- instantiations (generated by /verif/lib/registry.py) ----
